@@ -8,31 +8,6 @@ import DateutilVerif.Proofs.RRuleConstruct
 namespace RRule
 open Cal
 
-theorem sortBy_nodup_int (l : List Int) (h : l.Nodup) : (sortBy ltInt l).Nodup :=
-  pairwise_nodup (by intro a; simp [ltInt]) _ (sortBy_pairwise strictInt l (fun _ _ => trivial) h)
-
-theorem normUnit_nodup (freq lvl interval start : Int) (arg : Option (List Int)) (base : Int)
-    (res : Option (List Int)) (h : normUnit freq lvl interval start arg base = .ok res) :
-    (res.getD []).Nodup := by
-  unfold normUnit at h
-  split at h
-  · injection h with h; subst h
-    split <;> simp
-  · rename_i l
-    split at h
-    · split at h
-      · rename_i c hc
-        injection h with h; subst h
-        unfold constructByset at hc
-        dsimp only at hc
-        split at hc
-        · cases hc
-        · injection hc with hc; subst hc
-          exact sortBy_nodup_int _ (dedup_nodup _ [] List.nodup_nil)
-      · cases h
-    · injection h with h; subst h
-      exact sortedSet_nodup l
-
 /-- every rule built by the constructor with INTERVAL ≥ 1 and a week start in 0..6 -/
 theorem construct_ruleOk (a : Args) (r : Rule) (h : construct a = .ok r) (hi : 1 ≤ a.interval)
     (hw : 0 ≤ a.wkst.getD 0 ∧ a.wkst.getD 0 ≤ 6) : RuleOk r := by
